@@ -429,12 +429,24 @@ func filterReplace(ctx stick.Context, val stick.Value, args ...stick.Value) stic
 	res := stick.CoerceString(val)
 
 	if stick.IsMap(args[0]) {
-		replaces := make([]string, 0)
+		pairs := make([][2]string, 0)
 		stick.Iterate(args[0], func(k, v stick.Value, l stick.Loop) (bool, error) {
-			replaces = append(replaces, stick.CoerceString(k))
-			replaces = append(replaces, stick.CoerceString(v))
+			pairs = append(pairs, [2]string{stick.CoerceString(k), stick.CoerceString(v)})
 			return false, nil
 		})
+		// A map is visited in no particular order, and where two keys match
+		// at the same place the replacer takes the one it was given first: as
+		// in PHP's strtr, that is the longest one.
+		sort.Slice(pairs, func(i, j int) bool {
+			if len(pairs[i][0]) != len(pairs[j][0]) {
+				return len(pairs[i][0]) > len(pairs[j][0])
+			}
+			return pairs[i][0] < pairs[j][0]
+		})
+		replaces := make([]string, 0, 2*len(pairs))
+		for _, p := range pairs {
+			replaces = append(replaces, p[0], p[1])
+		}
 
 		replacer := strings.NewReplacer(replaces...)
 		res = replacer.Replace(res)
